@@ -42,9 +42,18 @@ static std::map<int, int> g_cleanups;   // element id -> number of cleanup calls
 static std::set<int> g_inset;           // ids currently believed to be in the set
 static std::string g_fail;              // first failure message of the current case
 
+// "never on an element still in the set": while set_remove / set_clear run an element's cleanup, the set's own
+// lookup must not report that element as a member any more (module.c's cleanup looks into its set like this).
+// During a replacing insert the key is by definition still a member (the new element), so nothing is asked then.
+static struct set *g_cb_set;
+static int g_cb_mode;                   // 0 = no question, 1 = inside set_remove, 2 = inside set_clear
+static int g_cb_member_seen;
+
 static void elem_cleanup(void *data) {
     Elem *e = (Elem *)data;
     g_cleanups[e->id]++;
+    if (g_cb_mode && g_cb_set && set_find(g_cb_set, data) != NULL)
+        g_cb_member_seen = e->id;
 }
 
 // key universe per comparator; model order = intended mathematical order
@@ -181,7 +190,10 @@ struct Harness {
         }
         case 1: {
             int old = model.count(r) ? model[r] : 0;
+            g_cb_set = &st; g_cb_mode = 1; g_cb_member_seen = 0;
             int res = set_remove(&st, (void *)datum(op.key), op.flag);
+            g_cb_mode = 0;
+            if (g_cb_member_seen) { std::ostringstream o; o << "cleanup of element #" << g_cb_member_seen << " ran inside set_remove while set_find still reported its key as a member"; fail(o.str()); }
             if ((res != 0) != (old != 0)) { fail(std::string("remove returned ") + std::to_string(res) + " for a key that is " + (old ? "present" : "absent")); }
             if (old) {
                 C.removes_hit++; removed_any = true;
@@ -216,7 +228,10 @@ struct Harness {
         case 4: {
             C.clears++;
             std::vector<int> ids; for (auto &kv : model) ids.push_back(kv.second);
+            g_cb_set = &st; g_cb_mode = 2; g_cb_member_seen = 0;
             set_clear(&st, op.flag);
+            g_cb_mode = 0;
+            if (g_cb_member_seen) { std::ostringstream o; o << "cleanup of element #" << g_cb_member_seen << " ran inside set_clear while set_find still reported its key as a member"; fail(o.str()); }
             for (int id : ids) {
                 expect_cleanups(id, op.flag ? 0 : 1, op.flag ? "clear with no_dispose" : "clear with disposal");
                 if (op.flag && u.cmp != CMP_PTR) {
